@@ -589,6 +589,9 @@ def selftest():
     V = []
     b = lambda name, file, old, new, rule, expect="", **kw: V.append(dict(name=name, kind="break", file=file, old=old, new=new, rule=rule, expect=expect, **kw))
     n = lambda name, file, old, new, **kw: V.append(dict(name=name, kind="neutral", file=file, old=old, new=new, **kw))
+    D2F_ = "phonopy/harmonic/dynmat_to_fc.py"
+    b("full layout filled by a Python loop that scatters rows and gathers columns through the same permutation", D2F_, "        if self._fc.shape[0] == self._fc.shape[1]:\n            distribute_force_constants_by_translations(self._fc, self._pcell)", "        if self._fc.shape[0] == self._fc.shape[1]:\n            for perm in self._pcell.atomic_permutations:\n                for s_i in self._pcell.p2s_map:\n                    self._fc[perm[s_i]] = self._fc[s_i][perm]", "R06y.permcov", "_inverse_transformation")
+    n("full layout filled by a Python loop that scatters rows and columns", D2F_, "        if self._fc.shape[0] == self._fc.shape[1]:\n            distribute_force_constants_by_translations(self._fc, self._pcell)", "        if self._fc.shape[0] == self._fc.shape[1]:\n            for perm in self._pcell.atomic_permutations:\n                for s_i in self._pcell.p2s_map:\n                    self._fc[perm[s_i], perm] = self._fc[s_i]")
     b("inverse transform: primitive index by rank among the sorted representatives", "phonopy/harmonic/dynmat_to_fc.py", "        s2pp = np.array([p2p[i] for i in s2p], dtype=\"int64\")", "        s2pp = np.array(np.unique(s2p, return_inverse=True)[1], dtype=\"int64\")", "R06j", "_c_inverse_transformation")
     b("OpenMP arm of the inverse transform passes another primitive index", DYN, "                fc, dm, ij / num_satom, ij % num_satom, comm_points, svecs,", "                fc, dm, ij % num_patom, ij % num_satom, comm_points, svecs,", "R06k", "dym_transform_dynmat_to_fc")
     D2F_ = "phonopy/harmonic/dynmat_to_fc.py"
